@@ -10,7 +10,7 @@ RULE = ('structured lattice: years {range ends, 0, epoch, i32 extremes} +-2 and 
         'month boundary +-1 and {0,365..368,...}; ISO weeks {0,1,2,51..55,...} x 7 weekdays; day numbers at '
         'range ends, multiples of 146097, i32 extremes, checked_add(365) boundary; adjacent / same-week / '
         'random date pairs for the orders; seeded random draws; d.range windows (quick: range ends, year '
-        'boundary of every residue, epoch, day 0; thorough: all 191,491,529 day numbers in 4096-day chunks)')
+        'boundary of every residue, epoch, day 0, the whole cycle 1601..2000; thorough: all 191,491,529 day numbers in 4096-day chunks)')
 
 MIN_YEAR, MAX_YEAR = -262143, 262142
 CHUNK = 4096
@@ -108,6 +108,7 @@ def quick_windows():
         w.append((days_before_year(y) + 1, days_before_year(y + 1) + 1))
     for k in (-1310, -1, 0, 1, 13, 1310):                                   # 400-year cycle seams
         w.append((k * 146097 - 5, k * 146097 + 6))
+    w.append((days_before_year(1601) + 1, days_before_year(2001) + 1))      # one whole 400-year cycle
     return w
 
 
